@@ -239,14 +239,6 @@ impl<'a> Evaluator<'a> {
             ExpressionFactor::IdentifierValue { path, modifier } => {
                 let symbol_data = self.lookup_symbol(path, track_usage);
 
-                if let Some(SymbolData::MacroDefinition(_)) = symbol_data {
-                    // (a statement that uses the name of a macro as a value would otherwise be dropped without a word)
-                    return self.error(
-                        path.span,
-                        format!("'{}' is a macro and has no value", &path.data),
-                    );
-                }
-
                 Ok(symbol_data.and_then(|data| match data {
                     SymbolData::MacroDefinition(_) => None,
                     SymbolData::Number(val) => {
@@ -273,7 +265,12 @@ impl<'a> Evaluator<'a> {
         path: &Located<IdentifierPath>,
         track_usage: bool,
     ) -> Option<&SymbolData> {
-        let tuple = self.get_symbol(self.current_scope_nx, &path.data);
+        // A value is never a macro: like an invocation, which finds the nearest symbol of that name that is a macro, a value
+        // finds the nearest one that is not (a label may have the name of a macro of an enclosing scope and be used before it
+        // is defined). A name that only a macro has is an unknown identifier here.
+        let tuple = self.get_symbol_filtered(self.current_scope_nx, &path.data, |s| {
+            !matches!(s.data, SymbolData::MacroDefinition(_))
+        });
         let symbol_index = tuple.as_ref().map(|(s, _)| *s);
         let symbol_data = tuple.as_ref().map(|(_, s)| &s.data);
 
